@@ -95,3 +95,14 @@ Example C08_ex :
 Proof.
   cbv zeta. split; [repeat constructor; discriminate|]. split; vm_compute; reflexivity.
 Qed.
+
+(* ---- receiving side of the frontend: the short-read decisions REGENERATED from connection.rs / frontend.rs
+   (Gen/GenFeRecv.v) and called by the frontend model: fewer bytes than the message has is an error, a clean
+   'disconnected' only when no byte of a header arrived ---- *)
+From VV Require Import Gen.GenFeRecv Proofs.FeRecvProofs.
+Theorem C08_short_read_is_an_error_regenerated :
+  (forall b t hv bv, frb_d1 b t hv bv = false <-> b = t)
+  /\ (forall b s, frp_d3 b s = false <-> b = s)
+  /\ (forall b hsz hv, (frh_d1 b hsz hv = true <-> b = 0) /\ (frh_d2 b hsz hv = false <-> b = hsz) /\ (frh_d3 b hsz hv = false <-> hv = true)).
+Proof. split; [intros b t hv bv; exact (proj1 (frb_spec b t hv bv))|split; [exact frp_d3_spec|exact frh_spec]]. Qed.
+Print Assumptions C08_short_read_is_an_error_regenerated.
